@@ -1125,7 +1125,7 @@ Definition only_matcher (fx4 : bool) (r : ruledef) : option cmatcher :=
 (** C03-F1: hosts [a.com, b.com]; GET http://a.com/a is not matched *)
 Lemma F1_refuted :
   exists r cm q, only_matcher false r = Some cm /\ guard_F1 false eng_none (rl_hosts r) q = true /\
-    route_matches false true D7 eng_none cm q [] [] = MNo /\ spec_route_ok eng_none r [] q [] [] = true.
+    route_matches false true D8 eng_none cm q [] [] = MNo /\ spec_route_ok eng_none r [] q [] [] = true.
 Proof.
   exists (w_rule [] [w_exact "a.com"; w_exact "b.com"] [w_route "/a" []] SOff).
   eexists. exists (w_req "GET" "a.com" "/a"). vm_compute. repeat split.
@@ -1134,7 +1134,7 @@ Qed.
 (** C03-F4: methods ["!GET"]; GET /a is matched *)
 Lemma F4_refuted :
   exists r cm q, only_matcher false r = Some cm /\ guard_F4 false (rl_methods r) = true /\
-    route_matches false true D7 eng_none cm q [] [] = MYes /\ spec_route_ok eng_none r [] q [] [] = false.
+    route_matches false true D8 eng_none cm q [] [] = MYes /\ spec_route_ok eng_none r [] q [] [] = false.
 Proof.
   exists (w_rule ["!GET"] [] [w_route "/a" []] SOff).
   eexists. exists (w_req "GET" "h" "/a"). vm_compute. repeat split.
@@ -1195,8 +1195,8 @@ Lemma route_semantics_nonvacuous :
     Forall (from_path q) vals /\
     guard_F1 false eng_none (rl_hosts r) q = false /\ guard_F4 false (rl_methods r) = false /\
     on_params (guard_F6 true) (rl_slash r) q keys vals (cm_params cm) = false /\
-    on_params (guard_F8 D7) (rl_slash r) q keys vals (cm_params cm) = false /\
-    route_matches false true D7 eng_none cm q keys vals = MYes.
+    on_params (guard_F8 D8) (rl_slash r) q keys vals (cm_params cm) = false /\
+    route_matches false true D8 eng_none cm q keys vals = MYes.
 Proof.
   exists {| rl_scheme := "http"; rl_methods := ["ALL"; "!TRACE"]; rl_hosts := [w_exact "a.com"];
             rl_routes := [w_route "/file/:name" [{| pp_name := "name"; pp_tm := w_exact "[id]%2Fx" |}]];
